@@ -18,6 +18,15 @@ package raftlog_test
 // No state merging: the writer's per-scope cache (cached tail, cached metadata) and the LSM
 // are hidden state, so the enumeration is over event sequences (Canon() == "").
 //
+// The snapshot GC (a background goroutine started by every successful snapshot save) is owned
+// by the check, see c14_gc_test.go: after every call the automatic pass is awaited
+// (raftlog.VerifC14WaitGC) so that it never overlaps the read-back or a later call, and the
+// open-gc system places additional passes as explicit events: "<save>+gcP" (started while the
+// save holds the lifecycle lock between publishing its directory and committing its
+// manifest), "<save>+gcS" (during chunk staging) and "gc" (between calls). Error texts of the
+// store are sanitised (c14model.Sanitize: scratch paths, random snapshot nonce, scope id) so
+// that a violation reproduces verbatim when the engine re-executes its path.
+//
 // This file is the black-box half (package raftlog_test, exported API only). It registers
 // itself with the in-package half (c14_crash_test.go, which owns TestVerifC14) so that both
 // run in one test binary and write one result.
@@ -55,6 +64,10 @@ var (
 	c14nTrunc, c14nReplaceLast, c14nCompactKeep, c14nCompactAll, c14nInstall, c14nInstMid           atomic.Int64
 	c14nReopenSnap, c14nReopenDirty, c14nMultiChunk, c14nBothScopes, c14nBelowProbe, c14nConfChange atomic.Int64
 	c14nSizeCut                                                                                     atomic.Int64
+
+	// snapshot GC placement (open-gc system)
+	c14nGCPublish, c14nGCPublishBlocked, c14nGCPublishPayload, c14nGCStaging, c14nGCAlone atomic.Int64
+	c14nGCSuperseded, c14nGCOtherScopeSnap, c14nGCSecondSnap, c14nGCThenReopen            atomic.Int64
 )
 
 type c14Backend struct {
@@ -180,6 +193,30 @@ type c14Inst struct {
 	broken   error
 	dirty    bool
 	sinceRe  int
+	gc       bool   // system places snapshot GC passes (events "<snapshot save>+gcP", "+gcS", "gc")
+	lastEv   string // previous event (a GC pass directly after a GC pass adds nothing)
+	gcPlaced int    // GC passes placed on this path so far
+}
+
+// c14GCAlphabet is the per-scope alphabet of the open-gc system: what is needed to reach and
+// to move past snapshot saves; every snapshot save additionally comes with a GC pass placed
+// inside it (see Events).
+var c14GCAlphabet = []string{"app", "commit", "applied", "compact", "install", "instM"}
+
+func c14IsSnapshotSave(e string) bool { return e == "compact" || e == "install" || e == "instM" }
+
+func (in *c14Inst) snapDirs(si int) int {
+	ents, err := os.ReadDir(filepath.Join(in.be.dir, "snapshots", fmt.Sprintf("slot-%d", in.scopes[si].ID)))
+	if err != nil {
+		return 0
+	}
+	n := 0
+	for _, e := range ents {
+		if e.IsDir() {
+			n++
+		}
+	}
+	return n
 }
 
 var c14ScopeNames = [2]string{"A", "B"}
@@ -189,9 +226,9 @@ var c14ScopeNames = [2]string{"A", "B"}
 // depth 1.
 var c14Preamble = []string{"app2", "commit", "applied", "app"}
 
-func c14New(nScopes int, alphabet []string, warm bool) func() mc.Instance {
+func c14New(nScopes int, alphabet []string, warm bool, gc bool) func() mc.Instance {
 	return func() mc.Instance {
-		in := &c14Inst{nScopes: nScopes, alphabet: alphabet, phase: "open"}
+		in := &c14Inst{nScopes: nScopes, alphabet: alphabet, phase: "open", gc: gc}
 		defer func() {
 			if !warm || in.broken != nil {
 				return
@@ -247,12 +284,35 @@ func (in *c14Inst) Canon() string { return "" }
 func (in *c14Inst) Events() []string {
 	var out []string
 	for i := 0; i < in.nScopes; i++ {
-		for _, e := range in.m[i].Enabled(in.alphabet) {
+		en := in.m[i].Enabled(in.alphabet)
+		for _, e := range en {
 			out = append(out, c14ScopeNames[i]+"."+e)
+		}
+		if !in.gc {
+			continue
+		}
+		// the same snapshot saves with a GC pass placed inside: while the final directory is
+		// published and the manifest is not yet committed (+gcP), and while the chunks are being
+		// staged (+gcS; needs at least one chunk file)
+		for _, e := range en {
+			if c14IsSnapshotSave(e) {
+				out = append(out, c14ScopeNames[i]+"."+e+"+gcP")
+			}
+		}
+		for _, e := range en {
+			if !c14IsSnapshotSave(e) {
+				continue
+			}
+			if c, ok := in.m[i].Gen(e); ok && c.Save != nil && c.Save.Snapshot != nil && len(c.Save.Snapshot.Data) > 0 {
+				out = append(out, c14ScopeNames[i]+"."+e+"+gcS")
+			}
 		}
 	}
 	if in.sinceRe > 0 { // a reopen directly after a reopen (or of an untouched store) adds nothing
 		out = append(out, "reopen")
+	}
+	if in.gc && in.lastEv != "gc" && (in.m[0].Snap.Index > 0 || in.m[1].Snap.Index > 0) {
+		out = append(out, "gc") // a GC pass between calls
 	}
 	return out
 }
@@ -262,6 +322,25 @@ func (in *c14Inst) Apply(event string, env *mc.Env) (string, error) {
 		return "broken", nil
 	}
 	ctx := context.Background()
+	prevEv := in.lastEv
+	in.lastEv = event
+	if event == "gc" {
+		in.phase = "gc"
+		before := in.snapDirs(0) + in.snapDirs(1)
+		err := raftlog.VerifC14GCPass(in.be.db)
+		c14nGCAlone.Add(1)
+		in.gcPlaced++
+		if prevEv == "reopen" {
+			c14nGCThenReopen.Add(1)
+		}
+		if in.snapDirs(0)+in.snapDirs(1) < before {
+			c14nGCSuperseded.Add(1)
+		}
+		if err != nil {
+			return "gc pass: " + c14model.Sanitize(err.Error()), nil
+		}
+		return "gc pass", nil
+	}
 	if event == "reopen" {
 		in.phase = "reopen"
 		if err := in.be.db.Close(); err != nil {
@@ -294,6 +373,13 @@ func (in *c14Inst) Apply(event string, env *mc.Env) (string, error) {
 		si = 1
 	}
 	name := event[2:]
+	place := "" // GC pass placed inside this save: "publish" | "staging"
+	switch {
+	case strings.HasSuffix(name, "+gcP"):
+		name, place, in.phase = strings.TrimSuffix(name, "+gcP"), "publish", "gc-in-publish"
+	case strings.HasSuffix(name, "+gcS"):
+		name, place, in.phase = strings.TrimSuffix(name, "+gcS"), "staging", "gc-in-staging"
+	}
 	m := in.m[si]
 	call, ok := m.Gen(name)
 	if !ok {
@@ -333,10 +419,62 @@ func (in *c14Inst) Apply(event string, env *mc.Env) (string, error) {
 			}
 		}
 	}
+	var finishGC func() raftlog.VerifC14GCReport
+	dirsBefore := 0
+	if place != "" {
+		dirsBefore = in.snapDirs(0) + in.snapDirs(1)
+		finishGC = raftlog.VerifC14ArmGC(in.be.db, place, filepath.Join(in.be.dir, "snapshots"))
+	}
 	err := call.Do(ctx, in.st[si])
+	gcNote := ""
+	if finishGC != nil {
+		rep := finishGC()
+		if rep.Herr != "" {
+			in.broken = fmt.Errorf("GC placement (%s) in %s: %s", place, event, rep.Herr)
+			in.dirty = true
+			return "", nil
+		}
+		if !rep.Fired && err == nil {
+			in.broken = fmt.Errorf("GC placement point (%s) was not reached by %s (%s)", place, event, call)
+			in.dirty = true
+			return "", nil
+		}
+		in.gcPlaced++
+		gcNote = " with a GC pass placed at " + place
+		if rep.Blocked {
+			gcNote += " (the pass waited for the lifecycle lock until the save released it)"
+		}
+		if place == "publish" {
+			c14nGCPublish.Add(1)
+			if rep.Blocked {
+				c14nGCPublishBlocked.Add(1)
+			}
+			if len(call.Save.Snapshot.Data) > 0 {
+				c14nGCPublishPayload.Add(1)
+			}
+			if in.m[1-si].Snap.Index > 0 && len(in.m[1-si].Snap.Data) > 0 {
+				c14nGCOtherScopeSnap.Add(1)
+			}
+			if m.Snap.Index > 0 {
+				c14nGCSecondSnap.Add(1)
+			}
+		} else {
+			c14nGCStaging.Add(1)
+		}
+	}
+	// the automatic GC pass started by a successful snapshot save has returned before anything
+	// else happens: no free-running pass overlaps the read-back or a later call
+	raftlog.VerifC14WaitGC(in.be.db)
+	if place != "" && err == nil && in.snapDirs(0)+in.snapDirs(1) <= dirsBefore {
+		c14nGCSuperseded.Add(1) // one directory added, at least one (superseded) removed
+	}
 	if err != nil {
 		in.dirty = true
-		return "rejected", mc.Violatef("C14:valid-call-rejected", "scope %s: %s on model [%s] returned error: %v", c14ScopeNames[si], call, m.Summary(), err)
+		fp := "C14:valid-call-rejected"
+		if place != "" {
+			fp += "@" + in.phase
+		}
+		return "rejected", mc.Violatef(fp, "scope %s: %s%s on model [%s] returned error: %s", c14ScopeNames[si], call, gcNote, m.Summary(), c14model.Sanitize(err.Error()))
 	}
 	if merr := call.Do(ctx, in.mem[si]); merr != nil {
 		in.dirty = true
@@ -347,7 +485,7 @@ func (in *c14Inst) Apply(event string, env *mc.Env) (string, error) {
 	if len(in.m[0].Ents) > 0 && len(in.m[1].Ents) > 0 {
 		c14nBothScopes.Add(1)
 	}
-	return call.String(), nil
+	return call.String() + gcNote, nil
 }
 
 func (in *c14Inst) Check() error {
@@ -401,12 +539,14 @@ func c14OpenPart(r *ev.R) {
 		warm     bool
 		depth    int
 		note     string
+		gc       bool
 	}
 	systems := []sys{
-		{"open-2scopes", 2, base, false, ev.Pick(r, 3, 4), "all sequences of base-alphabet calls on two adjacent scopes of one DB + reopen, from empty scopes; full read-back compare after every step"},
-		{"open-1scope-deep", 1, base, false, ev.Pick(r, 4, 6), "one scope, deeper"},
-		{"open-2scopes-warm", 2, base, true, ev.Pick(r, 3, 4), "starts after a 4-call preamble on both scopes (entries 1..3, 2 committed+applied, 3 uncommitted) so that overwrite/compaction/install are enabled at depth 1"},
-		{"open-2scopes-warm-wide", 2, wide, true, ev.Pick(r, 2, 3), "warm start; adds partial commit, same-snapshot retry, config-applied mark, snapshot+entries in one save"},
+		{"open-2scopes", 2, base, false, ev.Pick(r, 3, 4), "all sequences of base-alphabet calls on two adjacent scopes of one DB + reopen, from empty scopes; full read-back compare after every step", false},
+		{"open-1scope-deep", 1, base, false, ev.Pick(r, 4, 6), "one scope, deeper", false},
+		{"open-2scopes-warm", 2, base, true, ev.Pick(r, 3, 4), "starts after a 4-call preamble on both scopes (entries 1..3, 2 committed+applied, 3 uncommitted) so that overwrite/compaction/install are enabled at depth 1", false},
+		{"open-2scopes-warm-wide", 2, wide, true, ev.Pick(r, 2, 3), "warm start; adds partial commit, same-snapshot retry, config-applied mark, snapshot+entries in one save", false},
+		{"open-gc", 2, c14GCAlphabet, true, ev.Pick(r, 3, 4), "snapshot GC passes as explicit events: every snapshot save also with a GC pass placed inside it (+gcP: started while the save holds the lifecycle lock between publishing its directory and committing its manifest, continues when the save has released the lock; +gcS: during chunk staging) and stand-alone passes between calls ('gc'); two scopes of one DB, grace 0, warm start, reopen; a committed snapshot must stay readable and equal to the reference now and after reopen", true},
 	}
 	for _, s := range systems {
 		if r.ViolationCount() > 0 {
@@ -416,9 +556,15 @@ func c14OpenPart(r *ev.R) {
 		if s.warm {
 			start = c14Preamble
 		}
-		mc.Run(r, mc.System{Name: s.name, New: c14New(s.scopes, s.alphabet, s.warm), MaxDepth: s.depth,
-			Bounds: map[string]any{"scopes": s.scopes, "alphabet": s.alphabet, "global": []string{"reopen (after at least one write)"}, "merging": "none", "start": start},
-			Note:   s.note})
+		global := []string{"reopen (after at least one write)"}
+		bounds := map[string]any{"scopes": s.scopes, "alphabet": s.alphabet, "merging": "none", "start": start}
+		if s.gc {
+			global = append(global, "gc (one synchronous GC pass; when a snapshot exists, not directly after a gc)")
+			bounds["gc_placement"] = "every enabled snapshot save (compact, install, instM) additionally as <save>+gcP and, when its payload has at least one chunk, <save>+gcS"
+			bounds["snapshot_gc_grace"] = 0
+		}
+		bounds["global"] = global
+		mc.Run(r, mc.System{Name: s.name, New: c14New(s.scopes, s.alphabet, s.warm, s.gc), MaxDepth: s.depth, Bounds: bounds, Note: s.note})
 	}
 
 	if r.Replay() == nil && r.ViolationCount() == 0 {
@@ -439,6 +585,15 @@ func c14OpenPart(r *ev.R) {
 		g("states_probed_below_compaction_point", &c14nBelowProbe, 1)
 		g("membership_change_entries", &c14nConfChange, 1)
 		g("size_limit_cut_a_read", &c14nSizeCut, 1)
+		g("gc_pass_placed_between_publish_and_manifest_commit", &c14nGCPublish, 1)
+		g("gc_pass_waited_on_lifecycle_lock_held_by_the_save", &c14nGCPublishBlocked, 1)
+		g("gc_pass_inside_save_of_snapshot_with_chunk_files", &c14nGCPublishPayload, 1)
+		g("gc_pass_inside_save_while_other_scope_holds_a_snapshot_with_chunks", &c14nGCOtherScopeSnap, 1)
+		g("gc_pass_inside_second_snapshot_save_of_a_scope", &c14nGCSecondSnap, 1)
+		g("gc_pass_placed_during_chunk_staging", &c14nGCStaging, 1)
+		g("gc_pass_between_calls", &c14nGCAlone, 1)
+		g("gc_pass_directly_after_reopen", &c14nGCThenReopen, 1)
+		g("gc_pass_removed_a_superseded_snapshot_directory", &c14nGCSuperseded, 1)
 		r.Count("database_reopens", c14Opens.Load())
 	}
 }
